@@ -33,7 +33,7 @@ pub fn def() -> PropDef {
             "generated search cannot show the absence of attacks; the adversary is a finite grammar of behaviours interleaved with network chaos",
             "the Byzantine authorities hold at most f = floor((N-1)/3) of the stake",
         ],
-        parts: vec![Part { name: "byzantine", cfg_len: CFG_LEN, tape_max: 400, quick: 500, thorough: 40_000, max_shrink_iters: 80, run }],
+        parts: vec![Part { name: "byzantine", cfg_len: CFG_LEN, tape_max: 400, quick: 800, thorough: 40_000, max_shrink_iters: 80, run }],
     }
 }
 
